@@ -191,6 +191,9 @@ func (c *Ctx) path(v ssa.Value, env Env, d int) string {
 		lo, hi := "", ""
 		if x.Low != nil {
 			lo = c.path(x.Low, env, d+1)
+			if lo == "0" {
+				lo = "" // x[0:h] and x[:h] are one expression
+			}
 		}
 		if x.High != nil {
 			hi = c.path(x.High, env, d+1)
